@@ -189,7 +189,8 @@ def render_case(sc, obs, hashes, final=None, api_set=None):
     """one reconcile: scenario sc (api, cache, faults in ops[0]) and its observation -> recon_case term, or None when
     the observation contains a call the model has no constructor for (reported as a correspondence break)."""
     faults = (sc["ops"][0].get("faults") or []) if sc.get("ops") else []
-    app = (sc["cache"].get("set") or sc["api"].get("set") or {}).get("name", "web")
+    _st = sc["cache"].get("set") or sc["api"].get("set") or {}
+    app = _st.get("app") or _st.get("name", "web")
     calls = [r_call(c, app) for c in obs["calls"]]
     if any(c is None for c in calls):
         return None
